@@ -162,10 +162,15 @@ def nontrivial(case):
 
 
 GEN = {"kernel": ("theories/Gen/GenEquiv.vo", "kernel of /repo (gene_datum.py, overlap.py, revise_annotation.py, process_genome.py windows): 15 equivalence lemmas"),
-       "cache": ("theories/Gen/GenCacheEquiv.vo", "cache decisions of /repo (verify_chromosome_h5_cache, revise_annotation, _is_current, _filter_jobs): 3 equivalence lemmas")}
+       "cache": ("theories/Gen/GenCacheEquiv.vo", "cache decisions of /repo (verify_chromosome_h5_cache, revise_annotation, _is_current, _filter_jobs): 3 equivalence lemmas"),
+       "cf_worker_run": ("theories/Props/C20code.vo", "control flow of /repo's WorkerProcess.run (+ _send_result) as an interaction program: equal to Model/Worker.v on every script (Proofs/WorkerProgP.v)"),
+       "cf_handle_chrome": ("theories/Props/C11code.vo", "control flow of /repo's _ProgressBars.handle_chrome (+ _pop, _collect) as an interaction program: in lockstep with Model/Collector.v under every schedule (Proofs/CollectorProgP.v)")}
+# further property files (theorems about the translated code) whose theorems and Print Assumptions are checked with the property's own
+EXTRA_PROPS = {"C20": ["C20code.v"], "C11": ["C11code.v"]}
 # which translated parts each property's theorems rest on
 NEEDS = {"C01": ["kernel"], "C02": ["kernel"], "C03": ["kernel"], "C04": ["kernel"], "C05": ["kernel"], "C06": ["kernel"], "C07": ["kernel"],
-         "C10": ["kernel"], "C14": ["kernel", "cache"], "C12": ["cache"], "C13": ["cache"], "C17": ["cache"]}
+         "C10": ["kernel"], "C14": ["kernel", "cache"], "C12": ["cache"], "C13": ["cache"], "C17": ["cache"],
+         "C20": ["cf_worker_run"], "C11": ["cf_handle_chrome"]}
 
 
 def standard_obligations(chk, props_file):
@@ -183,12 +188,13 @@ def standard_obligations(chk, props_file):
     chk.oblige("make: full .vo build of Props/%s and everything it imports%s" % (props_file, "".join("; " + GEN[n][1] for n in needs)), True)
     bad = common.hygiene()
     chk.oblige("hygiene: no Admitted/admit/Axiom/Parameter/Conjecture/kernel-weakening flags", not bad, "; ".join(bad))
-    info, out = common.props_assumptions(props_file)
-    if info is None:
-        chk.oblige("Props/%s compiles" % props_file, False, out[-2000:])
-        return False
-    for t in info["theorems"]:
-        chk.oblige("theorem %s (Props/%s)" % (t, props_file), True)
-    chk.oblige("Print Assumptions: all %d property theorems closed under the global context" % info["n_print"],
-               info["n_print"] > 0 and info["closed"] == info["n_print"] and not info["axioms"], out[-1500:])
+    for pf in [props_file] + EXTRA_PROPS.get(chk.pid, []):
+        info, out = common.props_assumptions(pf)
+        if info is None:
+            chk.oblige("Props/%s compiles" % pf, False, out[-2000:])
+            return False
+        for t in info["theorems"]:
+            chk.oblige("theorem %s (Props/%s)" % (t, pf), True)
+        chk.oblige("Print Assumptions (Props/%s): all %d property theorems closed under the global context" % (pf, info["n_print"]),
+                   info["n_print"] > 0 and info["closed"] == info["n_print"] and not info["axioms"], out[-1500:])
     return True
